@@ -1,9 +1,12 @@
 '''C29 - transformed-kernel output never clobbers other kernels.
 
 spec/KernelOutput.tla models up to three concurrent runs of
-CodedKern.rename_and_write, one action per file-system call, and is model-checked
-by TLC over ALL interleavings (both naming schemes, with and without a kernel
-left by an earlier run).
+CodedKern.rename_and_write, one action per file-system call ('multiple':
+O_CREAT|O_EXCL create / write / close; 'single': mkstemp / write / close / link /
+unlink / read-back), and is model-checked by TLC over ALL interleavings (both
+naming schemes, with and without a kernel left by an earlier run, atomic and
+split writes); since commit ea5fcc1 (atomic publication by os.link) TLC finds no
+counter-example for either scheme.
 
 Binding A (spec -> code): schedules of TLC's reachable graph (every schedule of
 a configuration with few schedules, otherwise a seeded uniform sample plus a
@@ -37,7 +40,9 @@ MAXRUNS = 3
 # ------------------------------------------------------------ known findings
 
 def _match_single_readback_before_write(case, clause, detail, finding):
-    '''single scheme: the ONLY failing clauses are "a run failed although the
+    '''(The finding is marked fixed in findings.d/C29.json - ea5fcc1 - so core no
+    longer offers it to this matcher; kept for trees without that commit.)
+    single scheme: the ONLY failing clauses are "a run failed although the
     shared file's creator has the same kernel" and/or "verdict based on an
     empty/partial file"; every affected run read the file while its creator
     (another run) was still before/inside its write; the whole trace is a
@@ -327,6 +332,8 @@ def _replay_all(cases, procs):
     # a stalled handshake (overloaded machine) is retried once, alone
     for i, trace in enumerate(traces):
         if "stall" in trace:
+            print(f"[C29] replay {trace['id']} retried after: {trace['stall'][-600:]}",
+                  file=sys.stderr, flush=True)
             again = _replay_chunk([c for c in slim if c["id"] == trace["id"]])[0]
             if "stall" in again:
                 raise core.MachineryError(f"replay {trace['id']}: {trace['stall']} / "
@@ -639,7 +646,8 @@ def run(tier):
         "rename_and_write shares (Config is identical for all runs)",
         "linearisation points are the calls psyGen makes through `os`/`open`; "
         "run-local work between two calls is atomic with the preceding call",
-        "a file-system call is atomic (SplitWrite models a write seen in two halves)",
+        "a file-system call is atomic (`split` models a write seen in two halves); "
+        "os.link publishes a complete file or fails",
         "content classes are relative to the text the same code writes in a "
         "sequential, unshimmed run"])
 
